@@ -18,10 +18,18 @@ MODULE = __name__
 
 MAGICS = ['none', '1.1', '1.0', '2.0', '2.0-line2', '2.0-after-blank']
 PREFERS = [-5, -1, 0, 1, 19, 20, 99]
-ENCODINGS = ['UTF-8', 'UTF-16LE', 'UTF-16BE', 'UTF-32LE', 'UTF-32BE', 'latin1-default', 'utf16le-default']
+ENCODINGS = ['UTF-8', 'UTF-16LE', 'UTF-16BE', 'UTF-32LE', 'UTF-32BE', 'latin1-default', 'utf16le-default',
+             'win1252-default', 'iso885915-default', 'koi8r-default', 'ascii-default', 'mac-default']
 PY_CODEC = {'UTF-8': 'utf-8', 'UTF-16LE': 'utf-16-le', 'UTF-16BE': 'utf-16-be', 'UTF-32LE': 'utf-32-le',
-            'UTF-32BE': 'utf-32-be', 'latin1-default': 'latin-1', 'utf16le-default': 'utf-16-le'}
-ASCII_COMPATIBLE = {'UTF-8', 'latin1-default', 'ISO-8859-1', 'US-ASCII', 'ANSI_X3.4-1968', 'ASCII'}
+            'UTF-32BE': 'utf-32-be', 'latin1-default': 'latin-1', 'utf16le-default': 'utf-16-le',
+            'win1252-default': 'cp1252', 'iso885915-default': 'iso8859-15', 'koi8r-default': 'koi8-r', 'ascii-default': 'ascii',
+            'mac-default': 'mac-roman'}
+# encodings that are named through default_encoding_name (the converter names sort on both sides of "UTF-8")
+NAMED = {'latin1-default': 'ISO-8859-1', 'utf16le-default': 'UTF-16LE', 'win1252-default': 'windows-1252',
+         'iso885915-default': 'ISO-8859-15', 'koi8r-default': 'KOI8-R', 'ascii-default': 'US-ASCII', 'mac-default': 'macintosh'}
+EIGHT_BIT = {'ISO-8859-1', 'windows-1252', 'ISO-8859-15', 'KOI8-R', 'US-ASCII', 'macintosh'}
+ASCII_ONLY_PROBE = {'koi8r-default', 'ascii-default'}          # the non-ASCII probe text is not in their repertoire
+ASCII_COMPATIBLE = {'UTF-8', 'latin1-default', 'ANSI_X3.4-1968', 'ASCII'} | EIGHT_BIT
 
 
 def system_default_converter():
@@ -44,6 +52,8 @@ def cells():
                 for enc in ENCODINGS:
                     for force in (0, 1):
                         for nonascii in (0, 1):
+                            if nonascii and enc in ASCII_ONLY_PROBE:
+                                continue
                             out.append((magic, bom, prefer, enc, force, nonascii))
     return out
 
@@ -73,8 +83,8 @@ def decide(cell, sysdefault):
     """returns dict(version, used, determined, wrong_encoding)"""
     magic, bom, prefer, enc, force, nonascii = cell
     version = decide_version(magic, prefer)
-    named = {'latin1-default': 'ISO-8859-1', 'utf16le-default': 'UTF-16LE'}.get(enc)
-    actual = {'latin1-default': 'ISO-8859-1', 'utf16le-default': 'UTF-16LE'}.get(enc, enc)
+    named = NAMED.get(enc)
+    actual = NAMED.get(enc, enc)
     signature = bom and actual.startswith('UTF')
     if force:
         used = named or ('SYSTEM:' + str(sysdefault))
@@ -87,7 +97,7 @@ def decide(cell, sysdefault):
     u = used.split(':')[-1]
     if u == actual:
         decodes = True
-    elif not nonascii and not bom and u in ASCII_COMPATIBLE | {'ISO-8859-1'} and actual in ('UTF-8', 'ISO-8859-1'):
+    elif not nonascii and not bom and u in ASCII_COMPATIBLE and actual in ({'UTF-8'} | EIGHT_BIT):
         decodes = True      # pure ASCII bytes read the same in every ASCII-compatible encoding
     elif not nonascii and bom and actual == 'UTF-8' and u == 'UTF-8':
         decodes = True
@@ -99,7 +109,7 @@ def decide(cell, sysdefault):
         (decodes and signature)
     if force and bom and u not in ('UTF-8',) and not u.startswith('UTF'):
         determined = False   # a BOM decoded through an 8-bit encoding is garbage
-    if bom and enc == 'latin1-default':
+    if bom and actual in EIGHT_BIT:
         determined = False   # a UTF-8 signature in front of Latin-1 bytes is a contradictory file
     we = None
     if determined and version == 2:
@@ -117,7 +127,7 @@ def decide(cell, sysdefault):
 def encode(text, enc, bom):
     data = text.encode(PY_CODEC[enc])
     if bom:
-        b = '\ufeff'.encode(PY_CODEC[enc]) if enc not in ('latin1-default',) else b'\xef\xbb\xbf'
+        b = '\ufeff'.encode(PY_CODEC[enc]) if NAMED.get(enc) not in EIGHT_BIT else b'\xef\xbb\xbf'
         data = b + data
     return data
 
@@ -126,7 +136,7 @@ def run_cell(ctx, L, cell, sysdefault):
     magic, bom, prefer, enc, force, nonascii = cell
     text, plain = document(magic, nonascii)
     data = encode(text, enc, bom)
-    named = {'latin1-default': b'ISO-8859-1', 'utf16le-default': b'UTF-16LE'}.get(enc)
+    named = NAMED[enc].encode() if enc in NAMED else None
     opts = parsing.make_opts(prefer_cif2=prefer, encoding=named, force=force)
     res = parsing.parse(L, data, opts, 'new', 'accept')
     info = dict(cell=list(cell))
